@@ -463,7 +463,7 @@ REQUIRED_JUDGED = {
     'C02': ['Trace_Tree.agree'],
     'C03': ['Trace_Tree.spec_ok', 'Trace_Tree.inv'],
     'C05': ['Trace_Tree.call', 'Trace_Tree.init'],
-    'C07': ['Trace_Tree.twin', 'Trace_Tree.view'],
+    'C07': ['Trace_Tree.twin', 'Trace_Tree.view', 'Trace_Tree.ondisk'],
     'C08': ['Trace_Tree.lower', 'Trace_Tree.fault'],
     'C09': ['Trace_Tree.union', 'Trace_Tree.lower', 'Trace_Tree.level_b'],
     'C10': ['Trace_Tree.union', 'Trace_Tree.lower'],
